@@ -9,10 +9,10 @@ from symx.api import Harness, Raised, register
 
 from .common import snap1d, snapnd, nested, zsum
 
-DTYPES = ["int16", "int32", "int64", "float16", "float32", "float64"]
+DTYPES = ["int16", "int32", "int64", "float16", "float32", "float64", "float128"]
 RANK = {d: i for i, d in enumerate(DTYPES)}
 I2F = {"int16": "float32", "int32": "float64", "int64": "float64"}
-INFO = {"int16": 2**15 - 1, "int32": 2**31 - 1, "int64": 2**63 - 1, "float16": 65504.0, "float32": 3.4028234663852886e38, "float64": 1.7976931348623157e308}
+INFO = {"int16": 2**15 - 1, "int32": 2**31 - 1, "int64": 2**63 - 1, "float16": 65504.0, "float32": 3.4028234663852886e38, "float64": 1.7976931348623157e308, "float128": 2 ** 16383}
 
 
 def promote(a, b):
